@@ -7,7 +7,7 @@ RULE = ('source graphs: G-sel outside the known-finding classes; every admissibl
         'API; supplementary graphs: small G-sel graphs without incompatibilities built as SupDSG, every selection choice mapped by '
         'an option mapping (from a random source choice, None key present when the source choice is conditional, sometimes '
         'deliberately missing) or an existence mapping (priority list of random source nodes + default), plus malformed variants '
-        '(unmapped choice, duplicate mapping, non-final source); SupDSG.resolve(node set) or its error = the model\'s resolve; '
+        '(unmapped choice, duplicate mapping, non-final source), mappings registered in a shuffled order in 60% of the cases; SupDSG.resolve(node set) or its error = the model\'s resolve; '
         'non-trivial = at least 2 source architectures and a supplementary choice with 2 options; distinct = (source, sup, mappings)')
 TRUSTED = ['the source option order and the selected options of each source architecture come from the model\'s enum_adm; the '
            'implementation\'s source instance is produced by following that assignment through the graph API']
@@ -16,15 +16,17 @@ PARTIAL = []
 
 def batches(tier, seed):
     rng = rng_for(seed, 'C20')
-    n = 200 if tier == 'quick' else 3000
+    n = 500 if tier == 'quick' else 5000
     cases = []
     for i in range(n):
+        lay_src, lay_sup = rng.random() < 0.45, rng.random() < 0.45      # layered: nested choices under options
         for _try in range(60):
-            src = dsgcase.gen_sel(rng, max_nodes=8, max_choices=3, n_incompat=rng.choice([0, 0, 1]))
+            src = dsgcase.gen_layered(rng) if lay_src else dsgcase.gen_sel(rng, max_nodes=8, max_choices=3, n_incompat=rng.choice([0, 0, 1]))
             if not dsgcase.guards(src) and 'prederive' not in src:
                 break
         for _try in range(60):
-            sup = dsgcase.gen_sel(rng, max_nodes=7, max_choices=3, n_incompat=0)
+            sup = dsgcase.gen_layered(rng) if lay_sup else dsgcase.gen_sel(rng, max_nodes=7, max_choices=3, n_incompat=0)
+            sup['incompat'] = []
             if not dsgcase.guards(sup) and 'prederive' not in sup:
                 break
         src.pop('prederive', None)
@@ -35,7 +37,7 @@ def batches(tier, seed):
             opts = dsgcase._default_order(sc['options'])
             if rng.random() < 0.6 and src['sel']:
                 multi = [c_ for c_ in src['sel'] if len(set(c_['options'])) >= 2]
-                ssc = rng.choice(multi) if multi and rng.random() < 0.9 else rng.choice(src['sel'])
+                ssc = rng.choice(multi) if multi and rng.random() < 0.97 else rng.choice(src['sel'])
                 tbl = [[o, rng.choice(opts)] for o in dsgcase._default_order(ssc['options'])]
                 r = rng.random()
                 if r < 0.75:
@@ -53,7 +55,11 @@ def batches(tier, seed):
             maps.pop(rng.randrange(len(maps)))        # unmapped supplementary choice
         elif variant < 0.1 and maps:
             maps.append(list(rng.choice(maps)))       # duplicate mapping
-        cases.append({'src': src, 'sup': sup, 'maps': maps, 'nonfinal': rng.random() < 0.05, '_i': i})
+        # the order in which the mappings are registered is free (a nested choice may be registered before its parent)
+        reg = list(range(len(maps)))
+        if variant >= 0.1 and rng.random() < 0.6:
+            rng.shuffle(reg)
+        cases.append({'src': src, 'sup': sup, 'maps': maps, 'reg': reg, 'nonfinal': rng.random() < 0.05, '_i': i})
     yield 'g-sup', cases
 
 
@@ -90,8 +96,11 @@ def run_case(case):
             return {'skip': 'mapped-source-choice-was-resolved-at-initialisation', 'tags': tags}
         if m[0] == 'exist' and any(bs.node[k] not in bs.dsg.graph.nodes for k, _ in m[1]):
             return {'skip': 'mapped-source-node-was-pruned-at-initialisation', 'tags': tags}
+    reg = case.get('reg')
+    if not reg or sorted(reg) != list(range(len(maps))):
+        reg = list(range(len(maps)))
     try:
-        for cid, m in maps:
+        for cid, m in [maps[k] for k in reg]:
             if m[0] == 'opt':
                 mp = {(None if k is None else bs.node[k]): snode[v] for k, v in m[3]}
                 sg.add_mapping(snode[cid], bs.dsg, SupSelChoiceOptionMapping(bs.node[m[1]], mp))
